@@ -52,18 +52,19 @@ Example C01_nonvacuous :
 Proof. split; [simpl; tauto|split; vm_compute; reflexivity]. Qed.
 Print Assumptions C01_nonvacuous.
 
-(* THE SOURCE TIE for four core mutators.  Gen/Mutators.v holds the bodies of Hypergraph.add_node, add_node_to_edge, remove_edge and
-   remove_node_from_edge as programs of a small imperative language, regenerated from xgi/core/hypergraph.py on every
+(* THE SOURCE TIE for five core mutators.  Gen/Mutators.v holds the bodies of Hypergraph.add_node, add_node_to_edge, remove_edge,
+   remove_node (strong and weak, with its nested loops) and remove_node_from_edge as programs of a small imperative language, regenerated from xgi/core/hypergraph.py on every
    run (harness/translate_mutators.py, fail-closed).  Under the semantics of Model/PyIR.v (IDDict lookups raise
    IDNotFound, None keys raise XGIError, set.remove of a missing element raises KeyError, the loop iterates a copy)
-   running them gives exactly the model's state, outcome and warning count: for add_node_to_edge on EVERY state, for add_node whenever the two node tables have the same keys, for the two
+   running them gives exactly the model's state, outcome and warning count: for add_node_to_edge on EVERY state, for add_node whenever the two node tables have the same keys, for the three
    removals on every state satisfying the class invariant (where the lookups the code makes cannot fail) *)
 Theorem C01_core_mutators_are_source :
   (forall n a s, keys (h_nattr s) = keys (h_node s) -> run_method_a src_add_node [n] [] a s = add_node n a s) /\
   (forall e n s, run_method src_add_node_to_edge [e; n] [] s = add_node_to_edge e n s) /\
   (forall e s, Inv s -> run_method src_remove_edge [e] [] s = remove_edge1 e s) /\
+  (forall n strong re s, Inv s -> run_method src_remove_node [n] [strong; re] s = remove_node n strong re s) /\
   (forall e n re s, Inv s -> run_method src_remove_node_from_edge [e; n] [re] s = remove_node_from_edge e n re s).
 Proof.
-  split; [exact add_node_is_source|]. split; [exact add_node_to_edge_is_source|]. split; [exact remove_edge_is_source|exact remove_node_from_edge_is_source].
+  split; [exact add_node_is_source|]. split; [exact add_node_to_edge_is_source|]. split; [exact remove_edge_is_source|]. split; [exact remove_node_is_source|exact remove_node_from_edge_is_source].
 Qed.
 Print Assumptions C01_core_mutators_are_source.
